@@ -34,6 +34,12 @@ TIES = {
         "theorems": ["gen_can_access", "gen_dequeue", "gen_append", "gen_create", "gen_build_eq", "gen_run_eq",
                      "C19_gen_served_iff", "C19_gen_dequeue_total"],
     },
+    "acc_plan": {
+        "gen": "ProcSim/Gen/AccPlan.lean",
+        "proofs": "ProcSim/Props/AccPlanGen.lean",
+        "gen_module": "ProcSim.Gen.AccPlan",
+        "theorems": ["gen_add_rd_access", "gen_add_wr_access", "gen_add_access", "gen_build_acc_plan"],
+    },
     "sim_utils": {
         "gen": "ProcSim/Gen/SimUtils.lean",
         "proofs": "ProcSim/Props/SimUtilsGen.lean",
